@@ -512,6 +512,55 @@ def acquire_multihomed(v):
     return n
 
 
+def random_indices(v):
+    """Protect entries WITHOUT an explicit index (the loader draws one): every entry still gets an outbound policy of its own - the indices the kernel holds
+    are pairwise different, also for entries with the same networks and ports that differ in the protocol only - and an ACQUIRE that carries the index of
+    the second entry's policy is negotiated with the SECOND entry's proposal."""
+    import copy, probes
+    n = 0
+    for variant in ('proto', 'ipsec', 'mode'):
+        a = wd.connection_dict('A', 'B', dpd=50, lifetime=500)
+        e1 = dict(a['protect'][0], ip_proto='tcp', ipsec_proto='esp', mode='transport')
+        e1.pop('index', None)
+        e2 = dict(e1, **{'proto': dict(ip_proto='udp', ipsec_proto='ah'), 'ipsec': dict(ip_proto='udp', ipsec_proto='ah', lifetime=77), 'mode': dict(ip_proto='icmp', ipsec_proto='ah', mode='tunnel')}[variant])
+        e2.pop('encr', None)
+        e3 = dict(e1, ip_proto='any', ipsec_proto='ah', my_subnet='10.9.1.0/24', peer_subnet='10.9.2.0/24', mode='tunnel')
+        e3.pop('encr', None)
+        a['protect'] = [e1, e2, e3]
+        b = wd.connection_dict('B', 'A', dpd=50, lifetime=500)
+        b['protect'] = [dict(b['protect'][0], ip_proto='tcp', ipsec_proto='esp', mode='transport', index=31),
+                        dict({k: x for k, x in b['protect'][0].items() if k != 'encr'}, ip_proto=e2['ip_proto'], ipsec_proto='ah', mode=e2['mode'], index=32)]
+        w = wd.World(conf={'A': {'A-B': a}, 'B': {'B-A': b}}, seed=common.SEED)
+        try:
+            outs = {k: x for k, x in observed_spd(w.kernel['A']).items() if k[-1] == 1}
+            idx = sorted(x['index'] for x in outs.values())
+            n += 1
+            if len(outs) != 3 or len(set(idx)) != 3:
+                v.violation(f'three protect entries without explicit indices (the first two differ in {variant} only): the outbound policies carry the indices {idx} - '
+                            'not one index per entry', {'variant': variant, 'indices': idx}, signature={'component': 'index:distinct'})
+                continue
+            proto2 = PROTO[e2['ip_proto']]
+            second = next(x for k, x in outs.items() if k[4] == proto2)
+            req = w.acquire('A', index=second['index'] >> 3, proto=proto2 or 6)
+            if req is None:
+                v.violation(f'the ACQUIRE carrying the drawn index of the second entry is not negotiated ({variant})', {}, signature={'component': 'index:acquire'})
+                continue
+            res = w.dispatch('B', bytes(req), 'A')
+            auth = bytes(w.dispatch('A', res, 'B'))
+            inner = W.dec_message(auth, probes.keys_of(w.ctl['A'].ike_sas[0].my_crypto))['inner']
+            prop = next(x for x in inner if x['t'] == W.SA)['proposals'][0]
+            tsi = next(x for x in inner if x['t'] == W.TSI)['ts']
+            transport = any(x['t'] == W.NOTIFY and x['ntype'] == 16391 for x in inner)
+            if prop['proto'] != 2 or tsi[-1]['proto'] != proto2 or transport != (e2['mode'] == 'transport'):
+                v.violation(f'the ACQUIRE carrying the drawn index of the second entry (AH, IP protocol {proto2}, {e2["mode"]}) is negotiated with protocol {prop["proto"]}, '
+                            f'selector protocol {tsi[-1]["proto"]}, transport={transport}', {'variant': variant}, signature={'component': 'index:content'})
+        except wd.Escape as ex:
+            v.violation(f'entries without explicit indices ({variant}): {ex}', {}, signature={'component': 'index:escape'})
+        finally:
+            w.close()
+    return n
+
+
 def cfg(max_steps):
     return ('SPECIFICATION Spec\nCONSTANTS\n Configs = {{1}, {1, 2}, {3}, {1, 2, 3}, {4, 5}, {1, 2, 3, 4, 5}}\n MaxSteps = %d\nINVARIANT AfterStart\nINVARIANT AcquireMaps\nPROPERTY AfterStop\n'
             'VIEW View\nCHECK_DEADLOCK FALSE\n' % max_steps)
@@ -543,7 +592,7 @@ def run(tier, replay=None):
         if err:
             v.violation(err, {'behaviour': [s[0] for s in steps[:done + 1]]}, signature={'component': 'spd', 'what': err.split(':')[0][:40]})
     n_acq = acquire_mapping(v, tier)
-    n_busy = acquire_while_busy(v) + acquire_unknown_index(v) + acquire_around_rekey(v) + acquire_multihomed(v)
+    n_busy = acquire_while_busy(v) + acquire_unknown_index(v) + acquire_around_rekey(v) + acquire_multihomed(v) + random_indices(v)
     # Ike.tla CtlAcquire (queue on the IKE_SA with that peer / start one): every divergence right after an ACQUIRE in the replayed behaviours belongs here
     from checks import ikeprop
     ike_cov = dict(ikeprop.run(v, ['init'] if tier == 'quick' else ['init', 'estab', 'init3'], limit=700 if tier == 'quick' else None,
